@@ -16,9 +16,12 @@ SITE_AVAIL = "nanite.preproc.available"
 def _tables():
     from nanite import preproc
     ids = [p.identifier for p in preproc.PREPROCESSORS]
-    req = {p.identifier: list(p.steps_required or [])
+    def decl(v):
+        # one identifier instead of a list of identifiers names that step
+        return [v] if isinstance(v, str) else list(v or [])
+    req = {p.identifier: decl(p.steps_required)
            for p in preproc.PREPROCESSORS}
-    opt = {p.identifier: list(p.steps_optional or [])
+    opt = {p.identifier: decl(p.steps_optional)
            for p in preproc.PREPROCESSORS}
     return ids, req, opt
 
@@ -366,6 +369,10 @@ def check(run):
     gen_tables.generate()
     common.prove(run, "C14")
     ids, req, opt = _tables()
+    stray = [(p_, r_) for p_ in ids for r_ in req[p_] + opt[p_]
+             if r_ not in ids]
+    run.obligation("declared-predecessors-are-available-steps", not stray,
+                   f"declared but not an available step: {stray[:6]}")
     run.trusted = [
         "Coq 8.16.1 kernel + vm_compute",
         "tools/nv/gen_tables.py (prints PREPROCESSORS by introspection)",
